@@ -524,6 +524,57 @@ func handAnim(p *c16Parts, r *Rand) (data []byte, wf bool, kind string) {
 	return riffFile(body), wf, fmt.Sprintf("handanim-flag=%v-anim%d-frames=%s", flagAnim, animMode, kinds)
 }
 
+// c16Carriers: the views must not depend on how the bytes arrive: the io.Reader entry points through a reader
+// without Len / WriteTo / ReadAt, one that delivers 1..7 bytes per Read, a bufio.Reader; the []byte entry points
+// (mux.NewDemuxer, animation.DecodeBytes) with spare capacity behind the data (garbage, zeros).  Reported for
+// well-formed files (the property's quantifier), counted for the others.
+func c16Carriers(c *Ctx, f *c16File) {
+	base := runAPIs(f.Data)
+	report := func(carrier, what, got, want string) {
+		c.D.Evaluations++
+		if got == want {
+			c.Count("carrier:" + carrier + ":same")
+			return
+		}
+		c.Count("carrier:" + carrier + ":" + what + ":DIFFERENT")
+		if f.WF {
+			c.Violate("view-depends-on-carrier:"+carrier, fmt.Sprintf("%s of a well-formed %s file delivered as %s differs from the same bytes through bytes.Reader / an exact-size slice (%s vs %s)", what, f.Kind, carrier, got, want),
+				map[string]any{"kind": f.Kind, "file": hx(f.Data), "carrier": carrier, "view": what})
+		}
+	}
+	for _, rc := range readerCarriers() {
+		r := runAPIsVia(rc.Mk, f.Data)
+		report(rc.Name, "Decode", r.Dec+r.Panic, base.Dec+base.Panic)
+		report(rc.Name, "DecodeConfig", r.Cfg, base.Cfg)
+		report(rc.Name, "GetFeatures", r.Feat, base.Feat)
+	}
+	views := func(data []byte) (dmx, anim string) {
+		defer func() {
+			if r := recover(); r != nil {
+				dmx += " PANIC " + fmt.Sprint(r)
+			}
+		}()
+		dmx, anim = "E", "E"
+		if d, err := mux.NewDemuxer(data); err == nil {
+			ft := d.GetFeatures()
+			dmx = fmt.Sprintf("%d,%d,%s,%d,%d", ft.Width, ft.Height, b01(ft.HasAnimation), d.NumFrames(), d.LoopCount())
+		}
+		if a, err := animation.DecodeBytes(data); err == nil {
+			anim = fmt.Sprintf("%d,%d,%d,%d", a.CanvasWidth, a.CanvasHeight, len(a.Frames), a.LoopCount)
+			if len(a.Frames) > 0 && a.Frames[0].Image != nil {
+				anim += "," + pixelDigest(a.Frames[0].Image)
+			}
+		}
+		return
+	}
+	bd, ba := views(f.Data[:len(f.Data):len(f.Data)])
+	for _, sc := range sliceCarriers(f.Data, len(f.Data))[1:] {
+		d, a := views(sc.Data)
+		report(sc.Name, "mux.Demuxer", d, bd)
+		report(sc.Name, "animation.DecodeBytes", a, ba)
+	}
+}
+
 // c16FlagFlips: feature flags over- or under-stating the chunks present.  For a well-formed VP8X file (still or
 // animation) each single flag bit is flipped.  Whatever the readers make of such a file, they must agree:
 // container.Parser (GetFeatures / DecodeConfig), mux.Demuxer and animation.DecodeBytes all reject it, or all
@@ -577,6 +628,17 @@ func c16FlagFlips(c *Ctx, base *c16File) {
 		}
 		if (o.Cfg != "E") != pAcc {
 			violate(fmt.Sprintf("VP8X %s bit flipped: DecodeConfig accepts=%v, GetFeatures accepts=%v", fb.name, o.Cfg != "E", pAcc))
+		}
+		// header query vs full decode on a flag that under-states the chunks: a decoded still with a non-opaque
+		// pixel must be announced by GetFeatures.HasAlpha, whatever the VP8X alpha bit says
+		if fb.inDomain && !base.Animated && pAcc && o.Dec != "E" && o.nonOpaque {
+			var fw, fh int
+			var fa string
+			fmt.Sscanf(o.Feat, "%d,%d,%1s", &fw, &fh, &fa)
+			c.Count("flagflip:" + fb.name + ":alpha-soundness-evaluated")
+			if fa != "1" {
+				c.Violate("alpha-flag-unsound", "VP8X "+fb.name+" bit flipped on a still with transparency: Decode returns a picture with a non-opaque pixel, GetFeatures reports HasAlpha=false", replay)
+			}
 		}
 		animated := "still"
 		if base.Animated {
@@ -967,6 +1029,7 @@ func main() {
 		_ = color.NRGBAModel
 		for i := range files {
 			c16Check(c, &files[i])
+			c16Carriers(c, &files[i])
 		}
 		// 5b. VP8X flags inconsistent with the chunks: every flag bit flipped on a sample of the well-formed VP8X files
 		{
